@@ -141,16 +141,39 @@ def run(ctx):
     strings += [tuple(rng.randrange(64) for _ in range(8)) for _ in range(500)]
     strings = list(dict.fromkeys(strings))
     nvar = 8 if ctx.thorough else 3
-    ctx.pmap(w_any, [("s", (c, nvar)) for c in chunks(strings, 500)] +
+    ctx.pmap(w_any, [("q", 3)] + [("s", (c, nvar)) for c in chunks(strings, 500)] +
              [("b", c) for c in chunks([tuple(x) for x in bases] + strings[:40:3], 2)])
     ctx.cov["strings"] = len(strings)
     ctx.samples += [{"codes": list(bases[3]), "adsb": list(frames_for(bases[3], 7))[0][1], "bds20": list(frames_for(bases[3], 7))[1][1]}]
 
 
+def seq_thunks(tag=None):
+    """identifications of different lengths (trailing spaces), all spaces, the same text in ADS-B and BDS 2,0 carriers."""
+    th = []
+    for txt in ("SPEEDB1D", "KLM57K__", "N1______", "________", "AFR1234_", "A1_B2_C9"):
+        codes = codes_of(txt)
+        for kind, msg, extra in frames_for(codes, len(th)):
+            th.append(("%s:%s" % (kind, txt), (lambda k=kind, c=codes, m=msg, e=extra: judge(k, c, m, e))))
+    return th
+
+
+def w_seqx(depth):
+    from engine.util import explore_sequences
+    acc = Acc()
+    explore_sequences(acc, seq_thunks(), depth, "ident")
+    return acc.res()
+
+
 def w_any(t):
+    if t[0] == "q":
+        return w_seqx(t[1])
     return {"s": w_strings, "b": w_bg1}[t[0]](t[1])
 
 
 def replay(case):
+    if case["kind"] == "seqx":
+        from engine.util import replay_sequence
+        s = replay_sequence(seq_thunks(), case["sequence"])
+        return [(s, case)] if s else []
     s = judge(case["kind"], case["codes"], case["msg"], case.get("extra"))
     return [(s, case), (s + ":bg1", case)] if s else []
